@@ -1,7 +1,9 @@
-package jsonrpc2
+package mcp
 
-// C01 (a): every outgoing call completes exactly once, driven at the
-// jsonrpc2.Connection seam with a scripted Reader/Writer/Closer.
+// C01: every outgoing call completes exactly once.  Driven at the
+// jsonrpc2.Connection seam with a scripted Reader/Writer/Closer, (a) with plain
+// Call+Await and (b) through mcp's call() (error mapping, eager retire and
+// best-effort cancel notification on context cancellation).
 
 import (
 	"context"
@@ -13,6 +15,7 @@ import (
 	"strings"
 	"testing"
 
+	"github.com/modelcontextprotocol/go-sdk/internal/jsonrpc2"
 	"github.com/modelcontextprotocol/go-sdk/internal/verifx"
 	vs "github.com/modelcontextprotocol/go-sdk/internal/vsched"
 )
@@ -22,8 +25,7 @@ var errReadFail = errors.New("verif: read failed")
 
 type c01World struct {
 	// ground truth, written by harness threads while they hold the baton
-	answered   map[int64]string // call id -> "ok" | "err"
-	tagOf      map[int64]string // call id -> method written
+	answered   map[string]string // method tag -> "ok" | "err"
 	readEnded  string           // "", "eof", "err"
 	writeFault map[string]string
 	brokenW    bool
@@ -34,15 +36,15 @@ type c01World struct {
 
 type c01T struct {
 	w      *c01World
-	outbox chan *Request
-	inbox  chan Message
+	outbox chan *jsonrpc2.Request
+	inbox  chan jsonrpc2.Message
 	rerr   chan error
 	closed chan struct{}
 	once   bool
 	faults bool
 }
 
-func (f *c01T) Read(ctx context.Context) (Message, error) {
+func (f *c01T) Read(ctx context.Context) (jsonrpc2.Message, error) {
 	select {
 	case m := <-f.inbox:
 		return m, nil
@@ -53,11 +55,11 @@ func (f *c01T) Read(ctx context.Context) (Message, error) {
 	}
 }
 
-func (f *c01T) Write(ctx context.Context, m Message) error {
+func (f *c01T) Write(ctx context.Context, m jsonrpc2.Message) error {
 	if err := ctx.Err(); err != nil {
 		return err
 	}
-	r, ok := m.(*Request)
+	r, ok := m.(*jsonrpc2.Request)
 	if !ok || !r.IsCall() {
 		return nil
 	}
@@ -65,14 +67,13 @@ func (f *c01T) Write(ctx context.Context, m Message) error {
 		switch vs.Choose("fault-write", 3, 1) {
 		case 1:
 			f.w.writeFault[r.Method] = "rejected"
-			return fmt.Errorf("%w: not now", ErrRejected)
+			return fmt.Errorf("%w: not now", jsonrpc2.ErrRejected)
 		case 2:
 			f.w.writeFault[r.Method] = "broken"
 			f.w.brokenW = true
 			return errBrokenPipe
 		}
 	}
-	f.w.tagOf[r.ID.Raw().(int64)] = r.Method
 	select {
 	case f.outbox <- r:
 		return nil
@@ -89,8 +90,10 @@ func (f *c01T) Close() error {
 	return nil
 }
 
-type c01Res struct {
-	Tag string `json:"tag"`
+func c01ErrCode(tag string) int64 {
+	var i int64
+	fmt.Sscanf(tag, "m%d", &i)
+	return 4200 + i
 }
 
 type c01Opts struct {
@@ -99,16 +102,17 @@ type c01Opts struct {
 	cancel  bool // a canceller thread cancels caller 0
 	closer  bool // a Close thread
 	readEnd bool // the peer may end the read side
+	viaMCP  bool // callers use mcp's call() instead of Call+Await
 }
 
 func c01Scenario(o c01Opts) vs.Verdict {
-	w := &c01World{answered: map[int64]string{}, tagOf: map[int64]string{}, writeFault: map[string]string{}, cancelled: map[int]bool{}}
-	ft := &c01T{w: w, outbox: make(chan *Request, 8), inbox: make(chan Message, 16), rerr: make(chan error, 1), closed: make(chan struct{}), faults: o.faults}
+	w := &c01World{answered: map[string]string{}, writeFault: map[string]string{}, cancelled: map[int]bool{}}
+	ft := &c01T{w: w, outbox: make(chan *jsonrpc2.Request, 8), inbox: make(chan jsonrpc2.Message, 16), rerr: make(chan error, 1), closed: make(chan struct{}), faults: o.faults}
 	var internalErr string
-	c := NewConnection(context.Background(), ConnectionConfig{
+	c := jsonrpc2.NewConnection(context.Background(), jsonrpc2.ConnectionConfig{
 		Reader: ft, Writer: ft, Closer: ft,
-		Bind: func(*Connection) Handler {
-			return HandlerFunc(func(ctx context.Context, r *Request) (any, error) { return nil, ErrNotHandled })
+		Bind: func(*jsonrpc2.Connection) jsonrpc2.Handler {
+			return jsonrpc2.HandlerFunc(func(ctx context.Context, r *jsonrpc2.Request) (any, error) { return nil, jsonrpc2.ErrNotHandled })
 		},
 		OnInternalError: func(err error) { internalErr = err.Error() },
 	})
@@ -129,26 +133,26 @@ func c01Scenario(o c01Opts) vs.Verdict {
 
 	// peer: consumes written calls and answers them according to a free menu
 	vs.GoDaemon(func() {
-		answer := func(r *Request, mode int) {
+		answer := func(r *jsonrpc2.Request, mode int) {
 			id := r.ID.Raw().(int64)
+			okPayload := func(tag string) json.RawMessage {
+				return json.RawMessage(`{"content":[{"type":"text","text":"` + tag + `"}]}`)
+			}
 			switch mode {
 			case 0:
-				raw, _ := json.Marshal(c01Res{Tag: r.Method})
-				w.answered[id] = "ok"
-				ft.inbox <- &Response{ID: r.ID, Result: raw}
+				w.answered[r.Method] = "ok"
+				ft.inbox <- &jsonrpc2.Response{ID: r.ID, Result: okPayload(r.Method)}
 			case 1:
-				w.answered[id] = "err"
-				ft.inbox <- &Response{ID: r.ID, Error: &WireError{Code: 4200 + id, Message: "peer error " + r.Method, Data: json.RawMessage(`{"d":"` + r.Method + `"}`)}}
+				w.answered[r.Method] = "err"
+				ft.inbox <- &jsonrpc2.Response{ID: r.ID, Error: &jsonrpc2.WireError{Code: c01ErrCode(r.Method), Message: "peer error " + r.Method, Data: json.RawMessage(`{"d":"` + r.Method + `"}`)}}
 			case 2: // a response to an id that was never issued, then the real one
-				raw, _ := json.Marshal(c01Res{Tag: "bogus"})
-				ft.inbox <- &Response{ID: Int64ID(1000 + id), Result: raw}
-				raw, _ = json.Marshal(c01Res{Tag: r.Method})
-				w.answered[id] = "ok"
-				ft.inbox <- &Response{ID: r.ID, Result: raw}
+				ft.inbox <- &jsonrpc2.Response{ID: jsonrpc2.Int64ID(1000 + id), Result: okPayload("bogus")}
+				w.answered[r.Method] = "ok"
+				ft.inbox <- &jsonrpc2.Response{ID: r.ID, Result: okPayload(r.Method)}
 			}
 		}
-		var handle func(r *Request)
-		handle = func(r *Request) {
+		var handle func(r *jsonrpc2.Request)
+		handle = func(r *jsonrpc2.Request) {
 			if w.readEnded != "" {
 				return // the read side is gone: nothing can be answered any more
 			}
@@ -195,25 +199,35 @@ func c01Scenario(o c01Opts) vs.Verdict {
 
 	for i := 0; i < o.k; i++ {
 		vs.Go(func() {
-			var r c01Res
+			var r CallToolResult
 			tag := fmt.Sprintf("m%d", i)
-			ac := c.Call(ctxs[i], tag, nil)
-			err := ac.Await(ctxs[i], &r)
-			id := ac.ID().Raw().(int64)
+			var err error
+			if o.viaMCP {
+				err = call(ctxs[i], c, tag, &CallToolParams{Name: tag}, &r)
+			} else {
+				ac := c.Call(ctxs[i], tag, &CallToolParams{Name: tag})
+				err = ac.Await(ctxs[i], &r)
+			}
+			gotTag := ""
+			if len(r.Content) == 1 {
+				if tc, ok := r.Content[0].(*TextContent); ok {
+					gotTag = tc.Text
+				}
+			}
 			switch {
 			case err == nil:
 				results[i] = "ok"
-				if r.Tag != tag {
-					fail("wrong-response", "caller %d (id %d) received the payload of %q", i, id, r.Tag)
-				} else if w.answered[id] != "ok" {
-					fail("phantom-success", "caller %d succeeded although the peer never answered id %d with a result", i, id)
+				if gotTag != tag {
+					fail("wrong-response", "caller %d received the payload of %q", i, gotTag)
+				} else if w.answered[tag] != "ok" {
+					fail("phantom-success", "caller %d succeeded although the peer never answered %s with a result", i, tag)
 				}
 			default:
 				results[i] = "err"
-				var we *WireError
+				var we *jsonrpc2.WireError
 				switch {
-				case errors.As(err, &we) && we.Code == 4200+id:
-					if w.answered[id] != "err" || we.Message != "peer error "+tag || string(we.Data) != `{"d":"`+tag+`"}` {
+				case errors.As(err, &we) && we.Code == c01ErrCode(tag):
+					if w.answered[tag] != "err" || we.Message != "peer error "+tag || string(we.Data) != `{"d":"`+tag+`"}` {
 						fail("error-payload", "caller %d got error payload %+v not matching the peer's answer", i, we)
 					}
 					results[i] = "peererr"
@@ -222,9 +236,9 @@ func c01Scenario(o c01Opts) vs.Verdict {
 						fail("spurious-cancel", "caller %d got context.Canceled but was never cancelled", i)
 					}
 					results[i] = "cancelled"
-				case errors.Is(err, ErrRejected):
+				case errors.Is(err, jsonrpc2.ErrRejected):
 					if w.writeFault[tag] != "rejected" {
-						fail("spurious-rejected", "caller %d got ErrRejected but its write was not rejected", i)
+						fail("spurious-rejected", "caller %d got jsonrpc2.ErrRejected but its write was not rejected", i)
 					}
 					results[i] = "rejected"
 				case errors.Is(err, errBrokenPipe):
@@ -237,7 +251,7 @@ func c01Scenario(o c01Opts) vs.Verdict {
 						fail("spurious-readerr", "caller %d got %v although the reader never failed", i, err)
 					}
 					results[i] = "readerr"
-				case errors.Is(err, ErrClientClosing) || errors.Is(err, ErrServerClosing) || errors.Is(err, io.ErrClosedPipe):
+				case errors.Is(err, jsonrpc2.ErrClientClosing) || errors.Is(err, jsonrpc2.ErrServerClosing) || errors.Is(err, io.ErrClosedPipe) || errors.Is(err, ErrConnectionClosed):
 					if !w.closeCalld && w.readEnded == "" && !w.brokenW {
 						fail("spurious-closing", "caller %d got %v although nothing closed or broke the connection", i, err)
 					}
@@ -280,15 +294,17 @@ func c01Scenario(o c01Opts) vs.Verdict {
 	c.Wait()
 	w.waitDone = true
 	// a call started after Wait returned fails immediately with a closing error
-	ac := c.Call(context.Background(), "late", nil)
-	select {
-	case <-ac.ready:
-		err := ac.Await(context.Background(), nil)
-		if !errors.Is(err, ErrClientClosing) {
+	if o.viaMCP {
+		err := call(context.Background(), c, "late", &CallToolParams{Name: "late"}, &CallToolResult{})
+		if !errors.Is(err, ErrConnectionClosed) {
+			fail("late-call-error", "call after Wait returned %v, want an error that is ErrConnectionClosed", err)
+		}
+	} else {
+		// (if the call were not complete, Await would block forever: deadlock oracle)
+		err := c.Call(context.Background(), "late", nil).Await(context.Background(), nil)
+		if !errors.Is(err, jsonrpc2.ErrClientClosing) {
 			fail("late-call-error", "call after Wait returned %v, want an error that is ErrClientClosing", err)
 		}
-	default:
-		fail("late-call-blocks", "call after Wait is not complete when Call returns")
 	}
 	close(quit)
 	for _, cf := range cancels {
@@ -320,18 +336,25 @@ func TestVerifC01(t *testing.T) {
 	mk := func(name string, budget int, o c01Opts, opt vs.Options) *verifx.Scenario {
 		return vs.E1(t, name, budget, opt, func() vs.Verdict { return c01Scenario(o) })
 	}
-	scs := []*verifx.Scenario{
-		mk("a/k2-peer-menu", b(2, 3), c01Opts{k: 2, readEnd: true}, vs.Options{}),
-		mk("a/k2-write-faults", b(2, 3), c01Opts{k: 2, faults: true}, vs.Options{}),
-		mk("a/k2-cancel", b(2, 3), c01Opts{k: 2, cancel: true}, vs.Options{}),
-		mk("a/k2-close", b(2, 3), c01Opts{k: 2, closer: true, readEnd: true}, vs.Options{}),
-		mk("a/k3-all", b(1, 2), c01Opts{k: 3, closer: true, cancel: true, faults: true, readEnd: true}, vs.Options{}),
-	}
-	if !q {
+	var scs []*verifx.Scenario
+	for _, via := range []bool{false, true} {
+		p := "a/"
+		if via {
+			p = "b/"
+		}
 		scs = append(scs,
-			mk("a/k2-close-frontq", 2, c01Opts{k: 2, closer: true, readEnd: true, faults: true}, vs.Options{Front: true}),
-			mk("a/k3-close", 2, c01Opts{k: 3, closer: true}, vs.Options{}),
+			mk(p+"k2-peer-menu", b(2, 3), c01Opts{k: 2, readEnd: true, viaMCP: via}, vs.Options{}),
+			mk(p+"k2-write-faults", b(2, 3), c01Opts{k: 2, faults: true, readEnd: true, viaMCP: via}, vs.Options{}),
+			mk(p+"k2-cancel", b(2, 3), c01Opts{k: 2, cancel: true, readEnd: true, viaMCP: via}, vs.Options{}),
+			mk(p+"k2-close", b(2, 3), c01Opts{k: 2, closer: true, readEnd: true, viaMCP: via}, vs.Options{}),
+			mk(p+"k3-all", b(1, 2), c01Opts{k: 3, closer: true, cancel: true, faults: true, readEnd: true, viaMCP: via}, vs.Options{}),
 		)
+		if !q {
+			scs = append(scs,
+				mk(p+"k2-close-frontq", 2, c01Opts{k: 2, closer: true, readEnd: true, faults: true, viaMCP: via}, vs.Options{Front: true}),
+				mk(p+"k3-close", 2, c01Opts{k: 3, closer: true, viaMCP: via}, vs.Options{}),
+			)
+		}
 	}
 	env.Run(scs)
 }
